@@ -343,6 +343,13 @@ class Runner:
         info["direct_ok"] = bool(tail[0] == 0)
         if okA and _has_value_dups([tuple(map(float, r)) for r in c["coords"]]):
             self.bad("layout:accepted-duplicate-traps", f"RegisterLayout accepted duplicate coordinates {c['coords']}")
+        if c.get("history"):
+            # HISTORY oracle: in-place edits of handed-out arrays must not change the objects
+            from harness import c19_history
+
+            h = c19_history.run(c, self.bad)
+            info["history_edits"] = h["edits"]
+            info["history_refused"] = h["refused"]
         return dict(out=out, info=info), self.viol
 
     # ------------------------------------------------------------------
